@@ -69,18 +69,17 @@ RULE = ("cases = (function, population, partitioning, parameters) rebuilt from a
         "non-trivial = non-empty population; distinct = distinct (function, population, layout, parameters)")
 ASSUMPTIONS = ["CPython's random module and collections.Counter", "dask.delayed builds the partitions the harness wrote"]
 BUDGET = {"quick": 30, "thorough": 480}
+# floors: ~45 % of the counts measured on the unchanged tree for the full quick stream (107 exhaustive + 4000 random cases);
+# thorough = 100000 random cases of the same mixture (x25), floored at x22 of the quick floors
+_QUICK_COUNTERS = {
+    "sample_calls": 5000, "choices_calls": 2700, "random_sample_computes": 3600, "sample_k_gt_n": 1700, "sample_k_eq_0": 750,
+    "sample_0_lt_k_le_n_ok": 2500, "choices_ok": 2300, "empty_partition_cases": 900, "threads_runs": 2300, "processes_runs": 65,
+    "multi_level_reduce": 2900, "subsequence_ok": 700, "same_recompute": 700, "same_rebuild": 700, "same_threads": 700,
+    "same_rebuild_threads": 700, "same_processes": 15, "same_rebuild_processes": 15,
+}
 FLOORS = {
-    "quick": {"evaluations": 900, "distinct_nontrivial": 700,
-              "counters": {"sample_calls": 3500, "choices_calls": 2500, "random_sample_computes": 1500,
-                           "sample_k_gt_n": 900, "sample_k_eq_0": 350, "sample_0_lt_k_le_n_ok": 1500,
-                           "choices_ok": 1500, "empty_partition_cases": 350, "threads_runs": 400,
-                           "processes_runs": 4, "multi_level_reduce": 500},
-              "max_skipped_fraction": 0.1},
-    "thorough": {"evaluations": 9000, "distinct_nontrivial": 7000,
-                 "counters": {"sample_calls": 35000, "choices_calls": 25000, "random_sample_computes": 15000,
-                              "sample_k_gt_n": 9000, "sample_k_eq_0": 3500, "sample_0_lt_k_le_n_ok": 15000,
-                              "choices_ok": 15000, "empty_partition_cases": 3500, "threads_runs": 4000,
-                              "processes_runs": 40, "multi_level_reduce": 5000},
+    "quick": {"evaluations": 1800, "distinct_nontrivial": 1600, "counters": _QUICK_COUNTERS, "max_skipped_fraction": 0.1},
+    "thorough": {"evaluations": 40000, "distinct_nontrivial": 35000, "counters": {k: v * 22 for k, v in _QUICK_COUNTERS.items()},
                  "max_skipped_fraction": 0.1},
 }
 EXHAUSTIVE_SPACE = ("every split of a population of n<=4 distinct ints into p<=3 from_delayed partitions (empty partitions "
